@@ -58,6 +58,7 @@ def native_replay(snap, g: Group, inputs, workdir):
     exe = os.path.join(workdir, "replay.bin")
     cmd = (["gcc", "-std=gnu11", "-w", "-g", "-O1", "-fsanitize=address,undefined", "-fno-sanitize-recover=undefined", "-fno-omit-frame-pointer",
             "-DVP_NATIVE", "-DHAVE_CONFIG_H", "-DM4RI_VERIF", "-msse2",
+            "-D__CPROVER_assigns(...)=", "-D__CPROVER_loop_invariant(...)=", "-D__CPROVER_decreases(...)=", "-D__CPROVER_assert(...)=((void)0)",
             "-I" + d, "-I" + os.path.join(d, "m4ri"), "-I" + os.path.join(VERIF, "contracts"), "-I" + os.path.join(VERIF, "harness"),
             "-I" + os.path.join(VERIF, "stubs")]
            + defs + g.extra_cflags + [os.path.join(VERIF, "harness", g.harness)] + srcs + [os.path.join(VERIF, "lib", "native_rt.c"), "-o", exe, "-lm", "-lpng"])
